@@ -31,6 +31,7 @@ def _imports():
         RiscvPerformanceMetrics,
     )
     from architecture_simulator.util.integer_manipulation import ByteOffsetError
+    from architecture_simulator.util.integer_representations import get_n_bit_representations
 
     return locals()
 
@@ -406,11 +407,14 @@ def exec_cache(trace, prop) -> Result:
                     break
             elif kind == "INSPECT" and status == "ok":
                 rep = value[0]
+                # the table row must show the backing word - rendered with the repository's own formatter,
+                # so that a formatter defect (C17) cannot surface under C12's name
+                fmt = m["get_n_bit_representations"]
                 for wa in sorted(touched):
                     if wa in rep:
-                        shown = int(rep[wa][2].replace(" ", ""), 16)
-                        if shown != backing_word(sut, wa):
-                            res.violate("C12", "memory-table-differs-from-backing-store", at=i, expected=backing_word(sut, wa), got=shown, word=wa)
+                        want_row = list(fmt(backing_word(sut, wa), 32))
+                        if list(rep[wa]) != want_row:
+                            res.violate("C12", "memory-table-differs-from-backing-store", at=i, expected=want_row, got=list(rep[wa]), word=wa)
                             break
                 if res.violations:
                     break
